@@ -588,7 +588,7 @@ func genSamInput(t *rapid.T, o samGenOpts) SamInput {
 	if huge && nq > 2 {
 		nq = 2 // long references: gofasta's per-column flattening of multi-record queries is slow, keep the case cheap
 	}
-	if !huge && sizeClass(t, "sam") == 1 {
+	if !huge && len(in.Ref) <= 20000 && sizeClass(t, "sam") == 1 {
 		nq = rapid.IntRange(40, 80).Draw(t, "nQueriesMany")
 	}
 	var names []string
@@ -604,6 +604,10 @@ func genSamInput(t *rapid.T, o samGenOpts) SamInput {
 		nrec := 1
 		if o.maxRecs >= 2 && rapid.IntRange(0, 9).Draw(t, "multi") < 4 {
 			nrec = rapid.IntRange(2, o.maxRecs).Draw(t, "nRecs")
+		}
+		if o.maxRecs >= 3 && !huge && rapid.IntRange(0, 24).Draw(t, "fragmented") == 0 {
+			// a query in many pieces (a fragmented assembly): more records than any per-query fixed-size structure (8, 16, 32, 64)
+			nrec = rapid.SampledFrom([]int{9, 10, 12, 16, 17, 20, 33, 40, 65, 70}).Draw(t, "nRecsFragmented")
 		}
 		used := map[int]bool{}
 		conflict := o.allowConflict && nrec > 1 && rapid.IntRange(0, 3).Draw(t, "conflictQuery") == 0
@@ -683,6 +687,8 @@ func labelSam(in SamInput, o *Obs) {
 	for _, n := range gnames {
 		rs := gm[n]
 		o.LabelIf(len(rs) > 1, "multi-record-query")
+		o.LabelIf(len(rs) > 8, "query-with-more-than-8-records")
+		o.LabelIf(len(rs) > 64, "query-with-more-than-64-records")
 		if len(rs) > 1 {
 			// overlap?
 			cover := make([]int, L)
